@@ -416,6 +416,43 @@ def failing_program(draw):
 
 # ------------------------------------------------------------------ plain programs
 
+# ------------------------------------------------------------------ dialect-table sensitive
+
+BUILTIN_EXPRS = ['x % y', 'x / y', 'x ^ y', 's ++ "z"', 'ArrayConcat(l, [3])', 'Size(l)',
+                 'Split(s, ",")', 'Join(Split(s, ","), "+")', 'ToString(x)',
+                 'Greatest(x, y)', 'Least(x, y)', 'Sort(l)', 'Range(y)', 'Element(l, 0)',
+                 'ToInt64(ToString(x))', 'x * y - x', '(if x in l then 1 else 0)',
+                 'Abs(x - y)', 'Length(s)', 'Upper(s)', 'Substr(s, 1, 2)']
+ENGINES_8 = ['sqlite', 'duckdb', 'psql', 'bigquery', 'trino', 'presto', 'clickhouse',
+             'databricks', None]
+
+
+@st.composite
+def builtin_program(draw):
+    """Infix operators and built-in functions whose SQL template is chosen per dialect:
+    the text compiled for one engine must not depend on which engines were compiled
+    earlier in the process (class-level function / operator tables)."""
+    engine = draw(st.sampled_from(ENGINES_8))
+    names = draw_names(draw, 3)
+    t, p = names[0], names[1]
+    lines = [engine_line(engine).strip()] if engine else []
+    lines.append('%s(x: %d, y: %d, l: [1, 2], s: "a,b");' % (
+        t, draw(st.integers(3, 9)), draw(st.integers(1, 3))))
+    k = draw(st.integers(2, 6))
+    exprs = draw(st.lists(st.sampled_from(BUILTIN_EXPRS), min_size=k, max_size=k, unique=True))
+    fields = ', '.join('f%d: %s' % (i, e) for i, e in enumerate(exprs))
+    body = '%s(x:, y:, l:, s:)' % t
+    if draw(st.booleans()):
+        body += ', x in l | %s, x > 0' % body
+    lines.append('%s(%s) :- %s;' % (p, fields, body))
+    lines.append('Test(%s) :- %s(%s);' % (', '.join('f%d:' % i for i in range(k)), p,
+                                         ', '.join('f%d:' % i for i in range(k))))
+    return {'text': '\n'.join(lines) + '\n', 'preds': ['Test'],
+            'labels': ['shape:builtins', 'engine:%s' % (engine or 'default')],
+            'role': 'gen', 'multiset': False}
+
+
+
 @st.composite
 def plain_program(draw):
     from lv import gen, model
@@ -433,5 +470,6 @@ def program_item(exclude_d3=True):
     """Mixed strategy of generated items (role gen/failing/incantation)."""
     parts = [rec_program(), rec_program(), rec_program(), functor_program(),
              functor_program(), iteration_program(), import_program(), udf_program(),
-             plain_program(), failing_program(), tight_program(), incantation_program()]
+             plain_program(), failing_program(), tight_program(), incantation_program(),
+             builtin_program(), builtin_program(), builtin_program()]
     return st.one_of(parts)
